@@ -266,8 +266,8 @@ def _gen_image(ctx, rng, malformed):
     for _ in range(rng.choice([0, 1, 2, 4, 7])):
         ents.append(other())
     if rng.random() < 0.5:     # codes of the reused processor / OS ranges: their NAME depends on the target
-        ents.append([rng.choice([0x70000001, 0x70000003, 0x70000005, 0x70000006, 0x6000000d, 0x6000000e, 0x60000010,
-                                 0x60000011, 32, 0x7fffffff]), rng.getrandbits(16)])
+        ents.append([rng.choice([0x70000001, 0x70000003, 0x70000005, 0x70000006, 0x70000011, 0x70000011, 0x70000012, 0x70000013,
+                                 0x6000000d, 0x6000000e, 0x60000010, 0x60000011, 32, 0x7fffffff]), rng.getrandbits(16)])
     if rng.random() < 0.1:     # a second, different, string table pointer: the first one counts
         ents.append([DT['STRTAB'], rng.getrandbits(16) | 1])
     rng.shuffle(ents)
